@@ -58,6 +58,9 @@ func k1FromBatch(origin string, b *gvx.Batch, sources map[string]string, global 
 			kc.implErr = oc.Err
 		}
 		kc.req, kc.Unsupported = gvx.GenRequest(0, oc.Conv)
+		if len(kc.Unsupported) == 0 && len(oc.Conv.OutputRaw) == 0 {
+			gvx.AddLifted(kc.req, oc)
+		}
 		if len(oc.Conv.OutputRaw) > 0 {
 			kc.Unsupported = append(kc.Unsupported, "output:raw (user code, excluded by the statement)")
 		}
@@ -122,6 +125,7 @@ func runC03(e *env) error {
 	}
 	e.rep.Eval(len(reqs))
 	nUnsupported := 0
+	var sym symAcc
 	for i, a := range answers {
 		k := cases[i]
 		model := gvx.ModelTable(a)
@@ -136,7 +140,9 @@ func runC03(e *env) error {
 			e.rep.Violation("", map[string]any{"case": k, "implementation": k.impl.String(), "model": model.String(), "impl_error": truncate(k.implErr, 800),
 				"broken": "correspondence C03: Gv.Gen.generate vs generator.Generate"}, false)
 		}
+		symK1(e, &sym, k, a)
 	}
+	sym.report(e, "C03 (scenario corpus)")
 	e.rep.Note("scenario corpus: %d converters reached the generator, %d outside the modelled fragment", len(cases), nUnsupported)
 	if err := c03Generated(e, base); err != nil {
 		return err
@@ -330,6 +336,8 @@ func c03Generated(e *env, base string) error {
 		return err
 	}
 	e.rep.Eval(len(reqs))
+	var sym symAcc
+	defer func() { sym.report(e, "C03 (generated pairs)") }()
 	for i, a := range answers {
 		k := cases[i]
 		model := gvx.ModelTable(a)
@@ -337,6 +345,7 @@ func c03Generated(e *env, base string) error {
 			e.rep.Count("unsupported")
 			continue
 		}
+		symK1(e, &sym, k, a)
 		e.rep.Nontrivial(k.Source)
 		cls := k.impl.Head()
 		if cls == "err" {
@@ -352,4 +361,30 @@ func c03Generated(e *env, base string) error {
 		}
 	}
 	return nil
+}
+
+// symAcc accumulates the plan-level tie of a K1 campaign (see symReport).
+type symAcc struct {
+	equal, unliftable int
+	diffs             []map[string]any
+	samples           []string
+}
+
+func symK1(e *env, acc *symAcc, k *k1Case, a *sx.Node) {
+	sr := gvx.SymOf(a)
+	if sr == nil {
+		return
+	}
+	acc.equal += sr.Equal
+	acc.unliftable += len(sr.Unliftable)
+	if len(sr.Unliftable) > 0 && len(acc.samples) < 3 {
+		acc.samples = append(acc.samples, sr.Unliftable[0])
+	}
+	for _, d := range sr.Diffs {
+		acc.diffs = append(acc.diffs, map[string]any{"case": k, "method": d.Method, "model_term": d.Model, "emitted_code_term": d.Impl})
+	}
+}
+
+func (acc *symAcc) report(e *env, what string) {
+	symReport(e, what, acc.equal, acc.unliftable, acc.diffs, acc.samples)
 }
